@@ -15,7 +15,7 @@ def _c20_post(ctx):
         d["configs"].add(s.get("config", ""))
     enum = {k: v for k, v in per.items() if k != "TestC20LookupRandom"}
     expected = {"TestC20CurveConstants", "TestC20Torsion", "TestC20FixedBaseTable", "TestC20OddMultiples",
-                "TestC20VectorTables", "TestC20LookupAll", "TestC20ScalarConstants", "TestC20FieldConstants",
+                "TestC20VectorTables", "TestC20AfterUse", "TestC20AfterUseTorsion", "TestC20AfterUseVector", "TestC20LookupAll", "TestC20ScalarConstants", "TestC20FieldConstants",
                 "TestC20ElligatorConstants", "TestC20LatticeConstants", "TestC20X25519Basepoint"}
     errs = []
     missing = sorted(expected - set(enum))
@@ -60,9 +60,11 @@ PROPS["C20"] = {
          "tests": {
              "TestC20CurveConstants": LIST(),
              "TestC20Torsion": LIST(),
+             "TestC20AfterUse": LIST(), "TestC20AfterUseTorsion": LIST(),
              "TestC20FixedBaseTable": LIST(),
              "TestC20OddMultiples": LIST(),
              "TestC20VectorTables": LIST(configs=["default"]),
+             "TestC20AfterUseVector": LIST(configs=["default"]),
              "TestC20LookupAll": LIST(),
              "TestC20LookupRandom": T(3000, 100000),
          }},
